@@ -724,6 +724,8 @@ class Client:
           and the values are values from the cache. The dict may contain all,
           some or none of the given keys.
         """
+        # keys may be a one-shot iterable, which is truthy even when empty.
+        keys = list(keys)
         if not keys:
             return {}
 
@@ -785,6 +787,8 @@ class Client:
           the values are tuples of (value, cas) from the cache. The dict may
           contain all, some or none of the given keys.
         """
+        # keys may be a one-shot iterable, which is truthy even when empty.
+        keys = list(keys)
         if not keys:
             return {}
 
